@@ -1884,7 +1884,32 @@ bool GrothVSSHE::CheckGroup
 	if ((mpz_sizeinbase(q, 2L) < l_e) || (mpz_sizeinbase(q, 2L) < l_e_nizk))
 		return false;
 	// the commitment scheme is checked by the SKC class
-	return skc->CheckGroup();
+	if (!skc->CheckGroup())
+		return false;
+	// the encryption scheme has to use the group of the commitment scheme
+	if (mpz_cmp(p, com->p) || mpz_cmp(q, com->q))
+		return false;
+	// check, whether $g$ and $h$ are elements of the subgroup of order $q$
+	// and not trivial
+	mpz_t foo;
+	mpz_init(foo);
+	bool ok = true;
+	if ((mpz_cmp_ui(g, 1L) <= 0) || (mpz_cmp(g, p) >= 0) ||
+		(mpz_cmp_ui(h, 1L) <= 0) || (mpz_cmp(h, p) >= 0))
+	{
+		ok = false;
+	}
+	if (ok)
+	{
+		mpz_powm(foo, g, q, p);
+		if (mpz_cmp_ui(foo, 1L))
+			ok = false;
+		mpz_powm(foo, h, q, p);
+		if (mpz_cmp_ui(foo, 1L))
+			ok = false;
+	}
+	mpz_clear(foo);
+	return ok;
 }
 
 void GrothVSSHE::PublishGroup
